@@ -122,7 +122,7 @@ class Contract(object):
     def __init__(self, target, prop, args=None, requires=None, ensures=None, raises=None,
                  modifies=(), loops=None, params=None, assumed=False, inline=False,
                  decreases=None, ghost=None, result_type=None, note="", lemmas=(), reads_heap=True,
-                 block=None, pure_result=None, uses=(), returns=None, solver_hints=None, raises_not=None, result_name=None, heap_named=False):
+                 block=None, pure_result=None, uses=(), returns=None, solver_hints=None, raises_not=None, result_name=None, heap_named=False, appends=None):
         self.target = target
         self.prop = prop
         self.args = args or {}
@@ -148,6 +148,9 @@ class Contract(object):
         # *named* by uninterpreted functions of its arguments at call sites, so that callers' contracts can refer to it
         self.result_name = result_name
         self.heap_named = heap_named
+        # text streams (file objects opened for writing) are records VRec('stream', text=...); a callee that writes to a
+        # stream parameter says what it appends: {parameter: fn(S, *args) -> VStr, or None for 'some text'}
+        self.appends = appends or {}
         self.solver_hints = solver_hints or {}   # obligation-name fragment -> {"cli_s": seconds, "only": "cvc5"}
 
 
@@ -1644,6 +1647,15 @@ class Exec(object):
         if c.ensures:
             for name, fnc in c.ensures.items():
                 st.assume(tobool(fnc(S2, *(ordered + [res]))))
+        for pname, fnc in c.appends.items():
+            cur = bound[pname]
+            if not (isinstance(cur, VRec) and cur.cls == "stream") or pname not in names \
+                    or names.index(pname) >= len(node.args):
+                raise Unsupported("stream argument %r of %s" % (pname, q))
+            piece = tostr(fnc(S2, *ordered)) if fnc is not None else z3.String(fresh_name("written_by_" + short))
+            new = VRec("stream", {"text": VStr(z3.Concat(tostr(cur.fields["text"]), piece))})
+            st.env["$last_written"] = VStr(piece)
+            self.assign(_store(node.args[names.index(pname)]), new, st)
         return res
 
     def _params_for_callee(self, c, pv, extra, st):
@@ -1861,6 +1873,22 @@ class Exec(object):
         if name == "isinstance":
             raise Unsupported("isinstance")
         if name == "print":
+            f = kw.get("file")
+            if isinstance(f, VRec) and f.cls == "stream":
+                # print(a, b, ..., sep=' ', end='\n', file=stream): str() of every argument, joined, appended
+                sep = kw.get("sep", " ")
+                end = kw.get("end", "\n")
+                parts = []
+                for k_, a_ in enumerate(args):
+                    if k_:
+                        parts.append(tostr(sep))
+                    parts.append(tostr(self.to_str(a_, st, node)))
+                parts.append(tostr(end))
+                text = tostr(f.fields["text"])
+                for p_ in parts:
+                    text = z3.Concat(text, p_)
+                fnode = [k_.value for k_ in node.keywords if k_.arg == "file"][0]
+                self.assign(_store(fnode), VRec("stream", {"text": VStr(text)}), st)
             return VNone
         if name == "hasattr":
             raise Unsupported("hasattr (function attributes are global state)")
@@ -1906,6 +1934,14 @@ class Exec(object):
             st.assume(z3.And(0 <= r, r < lst.n, tobool(veq(lst.get(r), x)),
                              z3.ForAll([j], z3.Implies(z3.And(0 <= j, j < r), z3.Not(tobool(veq(lst.get(j), x)))))))
             return VInt(r)
+        if isinstance(obj, VRec) and obj.cls == "stream" and meth == "write" and len(args) == 1:
+            piece = args[0]
+            if isinstance(piece, VOpt):
+                self.safety(st, node, z3.Not(piece.isnone), "TypeError", "write_none")
+                piece = piece.val
+            new = VRec("stream", {"text": VStr(z3.Concat(tostr(obj.fields["text"]), tostr(piece)))})
+            self.assign(_store(fnode.value), new, st)
+            return VNone
         if isinstance(obj, VMap) and meth == "get" and len(args) == 2:
             return obj.get_default(args[0], args[1])
         if isinstance(obj, (VStr, str)):
@@ -2381,6 +2417,10 @@ def _is_print(call):
         return False
     f = call.func
     if isinstance(f, ast.Name) and f.id == "print":
+        # print(..., file=<something other than sys.stderr / sys.stdout>) writes to a stream of the program: not dropped
+        for k in call.keywords:
+            if k.arg == "file" and not (isinstance(k.value, ast.Attribute) and k.value.attr in ("stderr", "stdout")):
+                return False
         return True
     if isinstance(f, ast.Attribute) and f.attr == "write" and isinstance(f.value, ast.Attribute) \
             and f.value.attr in ("stderr", "stdout"):
